@@ -411,6 +411,16 @@ def rtq (ops : Ops.Table) (t : Term) : Option Term :=
 theorem C06_op_roundtrip_numbervars_witness :
     rtq Ops.defaultTable (.app "$VAR" (.cons (.int 1) .nil)) = some (.var 0) := by decide +kernel
 
+/-- `numsOK`: the model's integers are unbounded, the engine's are 64-bit: 2^64 is written in full and
+    refused by `integer()` (representation_error) -/
+theorem C06_op_roundtrip_bigint_witness : rtq Ops.defaultTable (.int 18446744073709551616) = none := by
+  decide +kernel
+
+/-- `wfTerm`: a stream handle is written `<stream>`; a "compound" without arguments is written as its functor -/
+theorem C06_op_roundtrip_wf_witness :
+    rtq Ops.defaultTable (.str 0) = none ∧ rtq Ops.defaultTable (.app "f" .nil) = some (.atom "f") := by
+  decide +kernel
+
 /-- `tableOK`, no infix and postfix operator of one name: with op p as (700,xfx) and (200,xf), `p(a)` is
     written `a p`, where the reader takes `p` for the infix operator -/
 theorem C06_op_roundtrip_infix_postfix_witness :
